@@ -72,29 +72,37 @@ AddJust(h, P) ==
     /\ \E dup \in BOOLEAN : last' = [op |-> "addjust", h |-> h, prem |-> PremList(P, dup)]
 
 (* retract of a live handle; retract of a dead or never-issued handle is an error without effect *)
-Retract(h) ==
+RetractL(h, lbl) ==
     IF h \in present
     THEN /\ present' = Gfp(present \ {h})
          /\ retracted' = CascFact(retracted, h)
          /\ live' = live \ CascFact(retracted, h)
          /\ UNCHANGED <<next, logical, justs>>
-         /\ last' = [op |-> "retract", h |-> h]
+         /\ last' = lbl
     ELSE /\ UNCHANGED <<next, logical, justs, present, retracted, live>>
-         /\ last' = [op |-> "retract", h |-> h]
+         /\ last' = lbl
+
+Retract(h) == RetractL(h, [op |-> "retract", h |-> h])
+(* a rule firing that derives a fact from p and consumes p in the same action (InsertLogicalFact{premises: <<p>>} followed by *)
+(* Retract(p) among the results of one firing): the two steps in that order - the derived fact is gone again afterwards      *)
+Consume(p) == /\ p \in present /\ next <= NH /\ Len(justs) < MaxJ
+              /\ (InsertLogical({p}) /\ nops' = nops) \cdot (RetractL(p, [op |-> "consume", h |-> p]) /\ nops' = nops + 1)
 
 PremSets == {P \in SUBSET present : Cardinality(P) >= 1 /\ Cardinality(P) <= MaxPrem}
 
-Next == /\ nops' = nops + 1
-        /\ \/ InsertExplicit
-           \/ \E P \in PremSets : InsertLogical(P)
-           \/ \E h \in H : \E P \in PremSets : AddJust(h, P)
-           \/ \E h \in H : Retract(h)
-(* for simulation runs: no retractions of absent handles (they are no-ops and waste the walk) *)
-NextSim == /\ nops' = nops + 1
+Next == \/ /\ nops' = nops + 1
            /\ \/ InsertExplicit
               \/ \E P \in PremSets : InsertLogical(P)
               \/ \E h \in H : \E P \in PremSets : AddJust(h, P)
-              \/ \E h \in present : Retract(h)
+              \/ \E h \in H : Retract(h)
+        \/ \E p \in H : Consume(p)
+(* for simulation runs: no retractions of absent handles (they are no-ops and waste the walk) *)
+NextSim == \/ /\ nops' = nops + 1
+              /\ \/ InsertExplicit
+                 \/ \E P \in PremSets : InsertLogical(P)
+                 \/ \E h \in H : \E P \in PremSets : AddJust(h, P)
+                 \/ \E h \in present : Retract(h)
+           \/ \E p \in H : Consume(p)
 Spec == Init /\ [][Next]_vars
 
 ----------------------------------------------------------------------------------
@@ -104,13 +112,14 @@ SupportInv  == \A f \in (logical \cap Issued) :
 (* a logical fact that is absent was retracted by the user or has no justification with all premises present *)
 AbsentInv   == \A f \in (logical \cap Issued) \ present :
                   f \in retracted   \* bookkeeping: it went through a retraction
-ExplicitInv == [][\A f \in present \ logical : f \notin present' => (last'.op = "retract" /\ last'.h = f)]_vars
+ExplicitInv == [][\A f \in present \ logical : f \notin present' => (last'.op \in {"retract", "consume"} /\ last'.h = f)]_vars
 (* "nothing else": a retraction removes only facts that are unsupported afterwards, and the user's fact *)
 OnlyUnsupportedRemoved ==
-    [][last'.op = "retract" =>
+    [][last'.op \in {"retract", "consume"} =>
          \A f \in present \ present' : f = last'.h \/ (f \in logical /\ ~Supported(present', f))]_vars
 Refines == live = present
 
+Reach_Consume == ~(last.op = "consume" /\ \E f \in logical : f \notin present /\ f = next - 1)      \* the derived fact is gone again
 Reach_Cascade2 == ~(last.op = "retract" /\ \E a, b \in logical : a # b /\ a # last.h /\ b # last.h
                        /\ a \in retracted /\ b \in retracted /\ Cardinality(present) >= 1)
 Reach_MultiJust == ~(\E f \in present \cap logical : Cardinality({j \in JustSet : j.fact = f}) >= 2
